@@ -185,7 +185,7 @@ def check_parser_side(ctx, lib):
             blocks = nkd.region("Lparen")
             no = nkd.origins("Lparen")
             aggs = [s for _, _, s in region_aggs(n, blocks, AST)]
-            oks = [s for _, _, s in region_aggs(n, blocks, "std::result::Result") if s["rv"]["variant"] == "Ok"]
+            oks = [s for _, _, s in region_aggs(n, blocks, "std::result::Result") if s["rv"]["variant"] == "Ok" and "ast::Ast" in str(s["place"].get("ty", "ast::Ast"))]
             ok = not aggs and len(oks) == 1 and all(t[0] == "call" and t[1] == P + "expr" for t in no.of_operand(oks[0]["rv"]["ops"][0]))
             pr = [1 for x in blocks if n.blocks[x]["term"]["k"] == "call" and n.blocks[x]["term"]["callee"] == P + "projection_rhs"]
             ctx.check(ok and not pr, rule, "parenthesised", "a parenthesised expression yields the inner node itself and ends any projection (no projection_rhs)", n.span)
